@@ -39,3 +39,18 @@ claim("C13", "model_checking",
       "All add/remove/next histories up to depth 7 (8) over three peers are checked for round-robin fairness on the real balancer; every schedule with at most 2 (3) preemptions of seven routing harnesses (wait-for-first-peer vs add / deactivate, full-peer skipping, all-full-then-one-drains, peer churn) must deliver each message to exactly one pipe and never leave the sender blocked while a peer has room.",
       "harnesses use 2 peers of capacity 1-4 and 1-3 messages, SNDTIMEO=-1; atomicity granularity as in C08; the PUSH/DEALER socket wrappers are exercised by the E3 stack scenarios",
       "5/C13")
+claim("C12", "model_checking",
+      "E1: explicit-state BFS of subscribe/unsubscribe histories on the real SubscriptionTrie against a multiset reference (matches probed on 9 topics after every step); E2: preemption-bounded DFS of matches() racing subscribe/unsubscribe sequences",
+      "All subscribe/unsubscribe histories up to depth 6 (7) over six topics (empty, nested prefixes, binary) are replayed on the real trie and compared with 'some active subscription is a byte-prefix'; every schedule with at most 2 (3) preemptions of seven reader/writer races must return an answer that is right for some subscription set current during the call.",
+      "trie level only so far plus the filtered ingress batch path under C08; end-to-end PUB/SUB ordering and slow-subscriber isolation are E3 scenarios (added with the world explorer); concurrent subscribe through a node held by an unsubscribe is excluded from E2 (real lock on the exploring thread)",
+      "5/C12")
+claim("C16", "model_checking",
+      "E2: preemption-bounded DFS (bound 3, thorough 4) of done()/wait()/add() tasks on the real WaitGroup that Context::term() waits on; E3 close/term injection scripts on the whole stack",
+      "Every schedule with at most 3 (4) preemptions of five WaitGroup harnesses must let every waiter return (a blocked waiter = lost wake-up that term() only survives through its hidden 10 s timeout).",
+      "WaitGroup component level (atomic ops and Notify calls as atomic steps); stack-level close()/term() injection at every prefix of API histories is the E3 part",
+      "5/C16")
+claim("C04", "model_checking",
+      "E1: exhaustive enumeration of all single and pair (thorough: border triples) cut sets at every byte position of static transcripts and of live CURVE/NOISE partner streams on the real engine; E3: deterministic paused-clock worlds with a real socket and a raw scripted peer attached through the tcp/ipc post-accept code path, every single cut and every border pair, quiescence after each chunk",
+      "For v3 NULL, v3 PLAIN, v2 (static) and CURVE/NOISE (live partner) transcripts of handshake + 3 messages (single, multipart with an empty frame, 300-byte frame), every segmentation in the stated family must deliver exactly the transcript's messages, at the engine and through Socket::recv() of a real socket whose session actor performs one read per chunk.",
+      "E3 replaces only the kernel socket (in-memory duplex stream through verif::attach_stream, same steps as tcp.rs after accept/connect); real kernel coalescing, ipc and the io_uring handler are not reached here (C20 covers the io_uring handler differential)",
+      "5/C04")
